@@ -503,6 +503,114 @@ func checkC17(tier, replay string) int {
 			}
 		})
 		ctx.Cov["overlapping_run_schedules"] = overlaps
+		// The same with a history: the cache holds the complete disassembly of an OLDER build of the binary (the file was
+		// rebuilt in place since); run A on the new build is paused inside its disassembler and then fails or is killed; run B,
+		// an ordinary run, is started while A is paused and may have to wait for it. Whatever B prints with status 0 has to be
+		// the new build's profile.
+		type stale struct {
+			Stale   bool   `json:"stale_cache_then_overlap"`
+			PauseAt int    `json:"a_paused_after_bytes"`
+			AEnd    string `json:"a_end"` // complete | exit1 | killed | profiler-killed
+		}
+		var sts []stale
+		for _, pa := range []int{0, 8192, len(LB)} {
+			for _, ae := range []string{"complete", "exit1", "killed", "profiler-killed"} {
+				sts = append(sts, stale{true, pa, ae})
+			}
+		}
+		if replay != "" {
+			sts = nil
+			var g struct {
+				Case stale `json:"case"`
+			}
+			if readJSON(replay, &g) == nil && g.Case.Stale {
+				sts = []stale{g.Case}
+			}
+		}
+		big2 := filepath.Join(scratch, "big2.lst")
+		os.WriteFile(big2, []byte(LB+"TEXT main.more(SB) /src/main.go\n  main.go:900\t0x1\t90\tMOVQ $0x65, AX\n  main.go:901\t0x2\t0f05\tSYSCALL\n  main.go:902\t0x1\t90\tMOVQ $0xa5, AX\n  main.go:903\t0x2\t0f05\tSYSCALL\n"), 0o644)
+		patched := func(dst string) {
+			b, _ := os.ReadFile(pe.hello["amd64"])
+			off := len(b) / 3
+			for k := 0; k < 8; k++ {
+				b[off+k] ^= 0xff
+			}
+			os.WriteFile(dst, b, 0o755)
+		}
+		// the new build's cold profile
+		binN, cacheN := newBin()
+		os.Remove(binN)
+		patched(binN)
+		rn := runProf(binN, big2, nil)
+		os.Remove(cacheN)
+		os.Remove(binN)
+		var staleRuns int64
+		if rn.Exit == 0 && rn.Stdout != cold[big] {
+			cold2 := rn.Stdout
+			parallelFor(len(sts), func(i int) {
+				st := sts[i]
+				bin, cache := newBin()
+				defer os.Remove(cache)
+				defer os.Remove(bin)
+				if r1 := runProf(bin, big, nil); r1.Exit != 0 {
+					return
+				}
+				os.Remove(bin)
+				patched(bin)
+				pauseFile := filepath.Join(scratch, fmt.Sprintf("pause-%d-%d", os.Getpid(), atomic.AddInt64(&seq, 1)))
+				defer os.Remove(pauseFile)
+				defer os.Remove(pauseFile + ".reached")
+				envA := []string{fmt.Sprintf("FAKE_PAUSE_AT=%d", st.PauseAt), "FAKE_PAUSE_FILE=" + pauseFile}
+				switch st.AEnd {
+				case "exit1":
+					envA = append(envA, "FAKE_EXIT=1")
+				case "killed":
+					envA = append(envA, "FAKE_KILL=self")
+				case "profiler-killed":
+					envA = append(envA, "FAKE_KILL=parent")
+				}
+				aDone := make(chan cmdResult, 1)
+				go func() { aDone <- runProf(bin, big2, envA) }()
+				for k := 0; k < 500; k++ {
+					if _, err := os.Stat(pauseFile + ".reached"); err == nil {
+						break
+					}
+					time.Sleep(10 * time.Millisecond)
+				}
+				time.Sleep(60 * time.Millisecond)
+				bDone := make(chan cmdResult, 1)
+				go func() { bDone <- runProf(bin, big2, nil) }()
+				// B either finishes on its own or waits for A: give it a moment, then let A go on
+				var rb cmdResult
+				gotB := false
+				select {
+				case rb = <-bDone:
+					gotB = true
+				case <-time.After(400 * time.Millisecond):
+				}
+				os.WriteFile(pauseFile, nil, 0o644)
+				ra := <-aDone
+				if !gotB {
+					rb = <-bDone
+				}
+				atomic.AddInt64(&runs, 3)
+				atomic.AddInt64(&staleRuns, 1)
+				if ra.Exit == 0 && ra.Stdout != cold2 {
+					ctx.Violation("C17:stale+overlap:run-A:"+st.AEnd, fmt.Sprintf("old build cached, binary rebuilt, run A (paused after %d bytes, end: %s) exited 0 with a profile that is not the new build's:\n%s", st.PauseAt, st.AEnd, clip(ra.Stdout, 300)), st)
+				}
+				if rb.Exit == 0 && rb.Stdout != cold2 {
+					ctx.Violation("C17:stale+overlap:run-B:"+st.AEnd, fmt.Sprintf("old build cached, binary rebuilt, run A paused after %d bytes (end: %s); the ordinary run B started meanwhile exited 0 with a profile that is not the new build's (reused cache: %v):\n%s", st.PauseAt, st.AEnd, strings.Contains(rb.Stderr, "Using cached objdump"), clip(rb.Stdout, 300)), st)
+				}
+				final := runProf(bin, big2, nil)
+				atomic.AddInt64(&runs, 1)
+				if final.Exit == 0 && final.Stdout != cold2 {
+					ctx.Violation("C17:stale+overlap:next-run:"+st.AEnd, fmt.Sprintf("old build cached, binary rebuilt, overlapping runs (A paused after %d bytes, end: %s), then a normal run: not the new build's profile:\n%s", st.PauseAt, st.AEnd, clip(final.Stdout, 300)), st)
+				}
+			})
+		} else if replay == "" {
+			ctx.Capped("stale-cache overlap: the second listing did not yield a different cold profile")
+		}
+		ctx.Cov["overlapping_run_schedules_with_a_stale_cache_of_an_older_build"] = staleRuns
 	}
 	ctx.Cov["evaluations"] = runs
 	ctx.Cov["distinct_nontrivial"] = len(hs)
@@ -515,7 +623,7 @@ func checkC17(tier, replay string) int {
 	if straceUnavailable > 0 {
 		ctx.Capped("strace not available: write-level crash points skipped")
 	}
-	ctx.Cov["rule"] = "histories run1(fault)[; run2(fault')]; run(normal) on the real profiler binary with a fake `go` tool: disassembler prints the first p bytes of the listing and exits 1 or is killed (quick: every line boundary, every byte of the first two lines and of the execve site, around every 4096-byte flush boundary of a 20 kB listing; thorough: every byte), tool missing from PATH, the profiler itself killed with SIGKILL after the disassembler produced p bytes (every 1024 bytes of a 20 kB listing), SIGKILL or ENOSPC injected by strace at the N-th write(2) of every thread of the profiler and of its children (N=1..18, counted per thread: log lines, every block of the cache file, the emitted profile, the disassembler's writes), a file size limit L (RLIMIT_FSIZE, standing for a full disk; L around the hash line, around every 4096-byte boundary and around the complete size) that hits whoever writes the cache file, and depth-2 fault sequences at line granularity; oracle: the final normal run prints exactly the cold-cache profile or exits non-zero, and a reused cache file equals the complete one; replacement histories: the binary at the same path is replaced by another one (other architecture; same file with bytes of .text flipped, i.e. identical Go build id), with and without an EIO injected at the N-th read while hashing, and with the disassembler failing for the new binary while the old binary's complete cache file is still there (tool missing; exit 1 after all, half or none of the output; killed): a run that exits 0 must print the new binary's cold profile, and so must the normal run after it; overlapping runs: run A on a binary is paused after its disassembler printed pA bytes (6 values), run B on the same binary then completes, fails after q bytes or is killed after q bytes (5 values), A continues, then a normal run - A's own profile and the next run's must be the cold profile or an error; distinct_nontrivial = histories"
+	ctx.Cov["rule"] = "histories run1(fault)[; run2(fault')]; run(normal) on the real profiler binary with a fake `go` tool: disassembler prints the first p bytes of the listing and exits 1 or is killed (quick: every line boundary, every byte of the first two lines and of the execve site, around every 4096-byte flush boundary of a 20 kB listing; thorough: every byte), tool missing from PATH, the profiler itself killed with SIGKILL after the disassembler produced p bytes (every 1024 bytes of a 20 kB listing), SIGKILL or ENOSPC injected by strace at the N-th write(2) of every thread of the profiler and of its children (N=1..18, counted per thread: log lines, every block of the cache file, the emitted profile, the disassembler's writes), a file size limit L (RLIMIT_FSIZE, standing for a full disk; L around the hash line, around every 4096-byte boundary and around the complete size) that hits whoever writes the cache file, and depth-2 fault sequences at line granularity; oracle: the final normal run prints exactly the cold-cache profile or exits non-zero, and a reused cache file equals the complete one; replacement histories: the binary at the same path is replaced by another one (other architecture; same file with bytes of .text flipped, i.e. identical Go build id), with and without an EIO injected at the N-th read while hashing, and with the disassembler failing for the new binary while the old binary's complete cache file is still there (tool missing; exit 1 after all, half or none of the output; killed): a run that exits 0 must print the new binary's cold profile, and so must the normal run after it; overlapping runs: run A on a binary is paused after its disassembler printed pA bytes (6 values), run B on the same binary then completes, fails after q bytes or is killed after q bytes (5 values), A continues, then a normal run - A's own profile and the next run's must be the cold profile or an error; the same with the cache holding an older build's complete disassembly, A failing / being killed after the pause and an ordinary run B started while A is paused (B, too, must print the new build's profile or fail); distinct_nontrivial = histories"
 	ctx.Assumptions = []string{"the fake go tool stands for any disassembler failure; the cache path is <home>/.seccomp-profiler/<base>-<sha256(abs)[:10]> as the profiler logs it", "strace injection realises crashes at write granularity"}
 	if replay != "" {
 		return finishReplay(ctx)
